@@ -12,6 +12,12 @@ def main(argv):
     if argv[0] == 'determinism':
         from . import determinism
         return determinism.main(argv[1:])
+    if argv[0] == 'unit':
+        from . import unit_inject
+        return unit_inject.main(argv[1:])
+    if argv[0] == 'seeded':
+        from . import seeded
+        return seeded.main(argv[1:])
     if argv[0] in ('sensitivity', 'noalarm'):
         from . import sensitivity
         return sensitivity.main(argv[0], argv[1:])
